@@ -8,6 +8,9 @@ Request lines (harness/src/ops_sieve.rs, lean/Ymq/Drv/Sieve.lean):
   svt / svl <nblocks> <adds> <adds2|x> <queries>   SieveTable / SieveTableLarge through the hooks
   sv_cof <P> <x> <facs> <maxlarge> <double>        fbase::cofactor
   sv_fb <n> <size>                                 FBase::new (idx_by_log)
+  svb <d0|d1> <root> <P> <cmd>...  log accumulation / threshold part, one request per build profile (d1 = checked,
+        d0 = release): new .. | skip <k> | rehash .. | blk <threshold>  (hash and maximum of the byte array blk after
+        sieve_block, positions reported by smooths(threshold) with their factor lists)
 """
 # SIZE AUDIT (quick tier), measured on cases('quick', Random(1))
 #   op        operand                      quick max          thorough max     code supports                          boundary classes reached in quick
@@ -32,12 +35,13 @@ from vlib import gen
 
 PID = "C13"
 GEN = []
-LEAN = ["Ymq.Props.C13"]
+LEAN = ["Ymq.Props.C13", "Ymq.Props.C13Log"]
 AUDIT = "Ymq.Audit.C13"
 THEOREMS = ["Ymq.C13." + t for t in (
     "cursor_inv small_recovery table_recovery large_table_recovery recycled_clean listed_complete_inv "
     "listed_complete listed_complete_rehash no_panic no_panic_rehash cofactor_no_panic fbase_new_classes log_sum_bound "
-    "cofactor_spec").split()]
+    "cofactor_spec accumulator_spec_partial accumulator_overflow_iff accumulator_overflow_witness "
+    "accumulator_no_overflow_partial smooths_threshold_spec").split()]
 PROFILES = ["release", "chk"]
 TIMEOUT = 120.0
 HYPOTHESES = [
@@ -1242,11 +1246,19 @@ MODELLED = [
     "fbase::cofactor (trial division of the listed primes, size tests, single/double large prime split, the debug assertion through "
     "a model of fbase::certainly_composite on the Montgomery routines of C07)",
     "fbase::FBase::new: the incremental idx_by_log loop (fbaseIbl), compared with the code on the primes FBase::new selects",
+    "sieve::Sieve::sieve_block, log accumulation (Ymq/Model/SieveLog.lean, one model per build profile): the byte array blk as the "
+    "ordered list of all `blk[off] += log` sites (classes 2..12: 4-at-a-time unrolled loop + two tail loops per prime; classes 13..15 "
+    "per cursor; bucket entries of the size-class tables, then of the large tables, overflow slots not accumulated; skipped primes "
+    "not accumulated) applied with u8 semantics (checked: panic on overflow, release: wrap); Sieve::smooths first half: skipbits, "
+    "threshold2, threshold2 - 1 (underflow), mzeros (u32 product), 16-byte chunk test, per-byte test, skipped-prime compensation and "
+    "root-distance compensation in u8/i32 arithmetic of the profile, final comparison with the threshold",
 ]
 UNMODELLED = [
-    "sieve.rs: the byte array blk (log accumulation in sieve_block), skipbits, thresholds and the SIMD scan of smooths, i.e. WHICH "
-    "positions are reported: positions are an input of the model (taken from the implementation's answer for the comparison)",
-    "the u8 log accumulators are outside the model: log_sum_bound gives the region where they cannot overflow (bitlen(value) + number "
+    "the SIMD intrinsics of the threshold scan (wide::u8x16 max/compare) are modelled by their meaning (some byte of the 16-byte "
+    "chunk exceeds threshold2 - 1); accumulator_spec_partial / accumulator_no_overflow_partial: the bookkeeping that the class loops "
+    "visit every non-skipped cursor exactly once and that bucket entries are the registered hits is not proved (the closed form "
+    "blk[x] = sum of bitlen p over the non-skipped primes with a root at x is checked on the code by the independent oracle)",
+    "log_sum_bound gives the region where the u8 log accumulators cannot overflow (bitlen(value) + number "
     "of distinct prime divisors <= 256); beyond it the overflow is reachable (finding reported: 398-bit n, Algo::Qs, checked profile)",
     "Dividers::{modu16, modi64, divmod_uint} are modelled as %, / (property C08); fbase::try_factor64 (Pollard rho / ECM) is a parameter "
     "of the cofactor model (the driver replays the pair returned by the implementation)",
@@ -1268,7 +1280,11 @@ CLAIM = ("Lean theorems, for all factor bases / root tables / block numbers / po
          "reset hides every stale entry; hence the factor list of ANY position contains every factor-base prime whose root matches, up "
          "to the counted losses of the size classes 16..18 (also after any number of rehash calls); on valid inputs no panic site of the modelled code is "
          "reached, with fresh or recycled tables, after rehash, and in cofactor (no_panic, no_panic_rehash, cofactor_no_panic); the idx_by_log "
-         "loop of FBase::new yields the class partition the sieve relies on (fbase_new_classes); cofactor's factors multiply back and its cofactor has no "
+         "loop of FBase::new yields the class partition the sieve relies on (fbase_new_classes); the byte array of sieve_block is the sum "
+         "of the logs of its += sites, each prime adding its bit length once per position congruent to a cursor; the checked model "
+         "panics exactly when a position's total reaches 256 (witness: the recorded finding as a theorem), never below the "
+         "log_sum_bound region; smooths reports exactly the positions whose byte exceeds threshold2 and whose corrected value reaches "
+         "the threshold; cofactor's factors multiply back and its cofactor has no "
          "listed prime factor, so it is 1 or has only prime factors above the bound when the list is complete. The model is tied to the "
          "code by differential runs through the public API (cursor hashes, overflow counters, bucket fill, factor lists) in the release "
          "and checked profiles; an independent Python oracle judges every reported position against every factor-base prime.")
